@@ -161,10 +161,68 @@ func classRuneTaint(fn *ssa.Function) (map[ssa.Value]bool, bool) {
 	return taint, true
 }
 
+// counterConstRange: v is a loop counter `for b := A; b <= B (or b < B+1); b++` with constant A and B.
+func counterConstRange(v ssa.Value) (lo, hi int64, ok bool) {
+	ph, isPhi := v.(*ssa.Phi)
+	if !isPhi || len(ph.Edges) != 2 {
+		return 0, 0, false
+	}
+	var init int64
+	var step ssa.Value
+	found := false
+	for i, e := range ph.Edges {
+		if c, isC := constInt(e); isC {
+			init, step, found = c, ph.Edges[1-i], true
+		}
+	}
+	if !found {
+		return 0, 0, false
+	}
+	inc, isBin := step.(*ssa.BinOp)
+	if !isBin || inc.Op != token.ADD || inc.X != ssa.Value(ph) {
+		return 0, 0, false
+	}
+	if c, isC := constInt(inc.Y); !isC || c != 1 {
+		return 0, 0, false
+	}
+	// the loop test in the phi's block (or referrers): a comparison of the counter with a constant
+	if ph.Referrers() == nil {
+		return 0, 0, false
+	}
+	for _, r := range *ph.Referrers() {
+		cmp, isBin := r.(*ssa.BinOp)
+		if !isBin || cmp.X != ssa.Value(ph) {
+			continue
+		}
+		b, isC := constInt(cmp.Y)
+		if !isC {
+			continue
+		}
+		isCond := false
+		if cmp.Referrers() != nil {
+			for _, rr := range *cmp.Referrers() {
+				if _, isIf := rr.(*ssa.If); isIf {
+					isCond = true
+				}
+			}
+		}
+		if !isCond {
+			continue
+		}
+		switch cmp.Op {
+		case token.LEQ:
+			return init, b, true
+		case token.LSS:
+			return init, b - 1, true
+		}
+	}
+	return 0, 0, false
+}
+
 func init() {
 	core.Register(&core.Rule{
 		Name: "R-INVALIDBYTE",
-		Doc: "A 256-entry byte table filled from a character class may depend on the class's runes only in its ASCII half. regexp reads every byte that is not part of a well-formed UTF-8 sequence as U+FFFD of width 1, so a class containing U+FFFD (every negated ASCII class: [^a], \\D, \\W, \\S) accepts the bytes 0x80-0xBF, 0xC0, 0xC1, 0xF5-0xFF, which are the lead byte of no rune. An entry >= 0x80 computed from the class's rune values (lead byte of the range ends, by bit arithmetic, an encoder helper or utf8.EncodeRune) is therefore wrong unless the function also consults U+FFFD; the upper half must be class-independent (a constant, or a counter with constant bounds: 'admit every byte >= 0x80'). Decided by data flow: in every module function that reads syntax.Regexp.Rune (or a []rune parameter) and stores into a [256]T table, the index of each store is either not data-dependent on the rune elements (comparisons are control, not data), or bounded by 0x7F at the store (the R-RUNEBYTE lemma), or the function compares something with 0xFFFD. Necessary for C15/C19/C01 (first-byte rejection filters, class tables). Four independent seeding agents chose this change.",
+		Doc: "A 256-entry byte table filled from a character class may depend on the class's runes only in its ASCII half. regexp reads every byte that is not part of a well-formed UTF-8 sequence as U+FFFD of width 1, so a class containing U+FFFD (every negated ASCII class: [^a], \\D, \\W, \\S) accepts the bytes 0x80-0xBF, 0xC0, 0xC1, 0xF5-0xFF, which are the lead byte of no rune. An entry >= 0x80 computed from the class's rune values (lead byte of the range ends, by bit arithmetic, an encoder helper or utf8.EncodeRune) is therefore wrong unless the function also consults U+FFFD; the upper half must be class-independent (a constant, or a counter with constant bounds that covers all of 0x80-0xFF: 'admit every byte >= 0x80' - a counter over the lead bytes 0xC2-0xF4 only is the same narrowing in constant form). Decided by data flow: in every module function that reads syntax.Regexp.Rune (or a []rune parameter) and stores into a [256]T table, the index of each store is either not data-dependent on the rune elements (comparisons are control, not data), or bounded by 0x7F at the store (the R-RUNEBYTE lemma), or the function compares something with 0xFFFD. Necessary for C15/C19/C01 (first-byte rejection filters, class tables). Six independent seeding agents chose this change.",
 		Min: 8, NeedSSA: true,
 		Run: func(p *core.Prog) *core.RuleResult {
 			res := &core.RuleResult{}
@@ -221,10 +279,17 @@ func init() {
 					ia := st.Addr.(*ssa.IndexAddr)
 					idx := stripConv(ia.Index)
 					o := core.Obligation{Key: kc.Key("R-INVALIDBYTE", core.FuncName(fn), "table entry set from the class"), Pos: p.Pos(st.Pos()), Nontrivial: true}
+					lo, hi, isCounter := counterConstRange(idx)
 					switch {
+					case !taint[idx] && !taint[ia.Index] && isCounter && hi >= 0x80 && (lo > 0x80 || hi < 0xFF) && !consultsFFFD:
+						o.Status = core.Violated
+						o.Detail = fmt.Sprintf("the class-independent counter that fills the upper half runs over 0x%X..0x%X only: a class with a non-ASCII member may contain U+FFFD, as which regexp reads every byte that is not part of a well-formed sequence (0x80-0xC1, 0xF5-0xFF included), so every byte >= 0x80 has to be admitted, not only the lead bytes", lo, hi)
 					case !taint[idx] && !taint[ia.Index]:
 						o.Status = core.Discharged
 						o.Detail = "the index does not depend on the class's rune values (constant or class-independent counter)"
+						if isCounter && hi >= 0x80 {
+							o.Detail = fmt.Sprintf("the index is a class-independent counter over 0x%X..0x%X, which covers every byte >= 0x80", lo, hi)
+						}
 					case boundedASCII(ia.Index, st.Block(), 0) || boundedASCII(idx, st.Block(), 0):
 						o.Status = core.Discharged
 						o.Detail = "the index depends on the class's runes and is bounded by 0x7F here (ASCII half)"
